@@ -86,11 +86,11 @@ PROPS['C11'] = dict(level='other', steps=[E3('c11-edits')],
                 text='bounded stand-in only: the editing functions are iterator/closure graph code outside the verifiers\' subset (DESIGN 5, C11); every step of every enumerated sequence is checked against observers written from the property statement.',
                 note='bounded; three known findings recorded in known_findings.json')
 
-PROPS['C12'] = dict(level='other', steps=[E3('c12-pages')],
+PROPS['C12'] = dict(level='proof', steps=[V('pages'), E3('c12-pages')],
                 title='Page enumeration is the depth-first order of the page tree',
-                technique='bounded-exhaustive: all page trees <= 7 nodes (thorough 9) x id layouts x Kids holdings, deep/wide patterns, malformed graphs and kinds, against the depth-first order computed from the tree shape',
-                text='bounded stand-in: exact order on every enumerated well-formed tree; termination / only-pages / no panic on every enumerated malformed one.',
-                note='bounded; PageTreeIter::next termination proof from the design probe is not yet wired into a unit')
+                technique='Verus contract on PageTreeIter::next (termination measure, only-Page postcondition, stack bound); bounded-exhaustive: all page trees <= 7 nodes (thorough 9) x id layouts x Kids holdings, deep/wide patterns, malformed graphs and kinds, against the depth-first order computed from the tree shape',
+                text='proved for every object graph, cyclic or not (Verus): PageTreeIter::next terminates (lexicographic measure iter_limit, stack length), yields only ids whose dictionary has /Type /Page, never raises the budget and keeps its explicit stack within PAGE_TREE_DEPTH_LIMIT. That the order is the depth-first order of the tree is decided on the enumerated trees only (bounded).',
+                note='Document::get_dictionary / Dictionary::get_type / PageTreeIter::kids enter as callee contracts (shims); while-let, byte-string match and @-pattern are rewritten by stated rules')
 
 PROPS['C17'] = dict(level='other', steps=[E3('c17-outline')],
                 title='Bookmarks become a well-formed outline that reads back',
@@ -104,11 +104,11 @@ PROPS['C05'] = dict(level='proof', steps=[V('crypt'), E3('c05-encrypt')],
                 text='the cipher kernels written in the crate are proved for all inputs: Rc4::new is the KSA, apply_keystream/encrypt/decrypt are the PRGA XOR and decrypt(encrypt(x)) = x; Pkcs5 raw_pad / unpad are inverse (Verus). Filter selection, key derivation, password authentication and the document walk are covered by the bounded family only.',
                 note='aes/cbc/md-5/sha2/rand assumed; encrypt_object/decrypt_object and Document::{encrypt,decrypt} are closure/iterator code not under contract')
 
-PROPS['C13'] = dict(level='other', steps=[E3('c13-queries')],
+PROPS['C13'] = dict(level='other', steps=[V('pages'), E3('c13-queries')],
                 title='Read-only queries are total on arbitrary object graphs',
                 technique='bounded-exhaustive typed-chaos documents (17 families, every key the query code reads bound to every kind / reference / cycle) evaluated in worker processes with stack, CPU and memory limits',
-                text='bounded stand-in: every read-only query on every enumerated small document returns without panic, abort, stack overflow or exceeding a CPU budget; lookups agree with an independent chain follower.',
-                note='bounded; the walkers are closure/iterator code not under contract')
+                text='bounded stand-in: every read-only query on every enumerated small document returns without panic, abort, stack overflow or exceeding a CPU budget; lookups agree with an independent chain follower. The page walk under get_pages / page_iter (PageTreeIter::next) is additionally proved terminating on every graph (Verus unit pages).',
+                note='bounded; apart from PageTreeIter::next the walkers are closure/iterator code not under contract')
 
 PROPS['C15'] = dict(level='proof', steps=[V('cmap'), E3('c15-cmap')],
                 title='ToUnicode CMaps decode text as the CMap defines',
